@@ -1,8 +1,13 @@
 """C01 — ordinal files survive write -> parse unchanged (OrdinalInstance.write / parse, parse_metadata).
 
 The extracted model (Model/OrdIO.v: ord_write, ord_parse, tokenize) is the independent reader / writer of the
-documented format.  Three kinds of cases:
-  c01.file       payload = instance;       write / parse_file / parse_str / write again, model on the same data
+documented format.  Kinds of cases:
+  c01.file       payload = instance;       write / re-parse through the four entry points (constructor with path,
+                 parse_file, get_parsed_instance, parse_str; each twice) / write each re-parsed object again /
+                 accessors called and their results spoiled / second write of the same object; model on the same data
+  c01.pair       payload = (A B), two different instances of one extension over the same ids: inside ONE worker call
+                 and per entry point: a malformed file is rejected, A is written + parsed, B is written + parsed, A's
+                 parsed object is looked at and written again (shared state between objects of one process)
   c01.tokenize   payload = text;           re.findall(order_pattern) against the model's state machine
   c01.history    payload = (instance steps); one object: write, then change multiplicities / append_order(_list) /
                  re-parse the last file, write again after every step: each file = model-write of the current fields
@@ -16,7 +21,7 @@ import shutil
 import tempfile
 
 from core import proto, oracle
-from .common import case, guarded, weak_orders
+from .common import case, guarded, weak_orders, snapshot, snap_diff
 
 ID = "C01"
 COVER_FILES = ['instances/preflibinstance/ordinal.py', 'instances/preflibinstance/instance.py']
@@ -26,7 +31,11 @@ RULE = ("exhaustive: every weak order (ordered partition) of every non-empty sub
         "multiplicities from a small pool (ties in the sort key), Unicode names / metadata incl. '#', ':', '{', ',', "
         "'}', colons with and without blanks ('closed 18:00', 'key: value', 'a :b'), header look-alikes, empty names and "
         "fields; stability blocks (equal multiplicity and equal number of classes in every insertion order); histories "
-        "on one object (set multiplicities / append_order / append_order_list / re-parse, write after every step); "
+        "on one object (set multiplicities / append_order / append_order_list / re-parse through any entry point / "
+        "accessors with spoiled results / recompute_cardinality_param / storage orders decoupled; write after every "
+        "step); pairs of instances of one extension in one process through all four entry points; names not in "
+        "ascending id order, multiplicity keys not in list order, numpy.int64 ids and multiplicities, double blanks / "
+        "tabs / U+00A0 inside values; "
         "tokenizer on well-formed and malformed ballot strings; parse with "
         "autocorrect / header_only on clean and dirty content. non-trivial = a file case with >= 2 ballots and at "
         "least one class of size != 1")
@@ -41,6 +50,9 @@ TRUSTED = ["modelled: OrdinalInstance.write / parse, PrefLibInstance.parse_lines
 ASSUMPTIONS = ["well-formed instance: >= 1 order, non-empty classes, multiplicity keys = orders (duplicate-free), "
                "multiplicities >= 1, metadata / names single-line without outer whitespace (may be empty), distinct "
                "alternative ids, data_type in soc/soi/toc/toi",
+               "an instance whose multiplicity dict lists its keys in another order than the orders list is the same "
+               "instance: the model is asked about the aligned listing (its wf_ord wants the two lists aligned), the "
+               "implementation gets the decoupled one",
                "write(filepath) replaces an empty file_name by the basename of the path (documented); the round trip "
                "is stated for the instance as it is after that step",
                "generated text excludes the ten line-boundary characters, outer whitespace, lone surrogates and "
@@ -56,6 +68,7 @@ FIELDS = ["file_name", "title", "description", "data_type", "modification_type",
 
 T = proto.text
 U = proto.untext
+ENTRIES = ["constructor", "parse_file", "get_parsed_instance", "parse_str"]
 
 
 # ---------------------------------------------------------------------------------------------------
@@ -67,11 +80,17 @@ def payload_instance(fields, na, nv, names, nu, orders, mult):
             [[list(c) for c in o] for o in orders], [[[list(c) for c in o], m] for o, m in mult]]
 
 
-def build_instance(pl):
-    """direct field assignment, the way the parser leaves an instance"""
+def build_instance(pl, np_numbers=False):
+    """direct field assignment, the way the parser leaves an instance (np_numbers: ids and multiplicities are
+    numpy.int64, as a tally made with numpy hands them over)"""
     from preflibtools.instances import OrdinalInstance
     inst = OrdinalInstance()
     f, na, nv, names, nu, orders, mult = pl
+    if np_numbers:
+        import numpy as np
+        orders = [[[np.int64(a) for a in cl] for cl in o] for o in orders]
+        mult = [[[[np.int64(a) for a in cl] for cl in o], np.int64(m)] for o, m in mult]
+        names = [[np.int64(a), n] for a, n in names]
     for name, v in zip(FIELDS, f):
         setattr(inst, name, U(v))
     inst.num_alternatives = na
@@ -105,6 +124,13 @@ def canon_noorder(d):
     return c
 
 
+def norm_mult(pl):
+    """the same instance with the multiplicity items listed in the order of the orders list (a dict has no
+    order as far as its content goes; the model's wf_ord wants the two lists aligned)"""
+    pos = {repr(o): k for k, o in enumerate(pl[5])}
+    return list(pl[:6]) + [sorted(pl[6], key=lambda it: pos.get(repr(it[0]), len(pos)))]
+
+
 def with_default_name(pl, base):
     pl = [list(pl[0])] + list(pl[1:])
     if not pl[0][0]:
@@ -122,7 +148,8 @@ SPECIAL += ["\U0001F600", " ", " ", " ", "\t", "\x1f", "\u00a0", "\u0663", "\ufe
 
 TRICKY = ["closed 18:00", "https://x.y/z", "a :b", "3:1", "key: value", ":", "::", ": x", "x :", "a:", "# x", "#",
           "# TITLE: t", "# ALTERNATIVE NAME 1: z", "# NUMBER VOTERS: 9", "{1,2}", "{", "}", "{}", "a, b", ",", "1, 2",
-          "1: 1, 2", "2: {1, 2}", "x__1", "X__1", "  inner  spaces ".strip(), "tab\there", "0", "007", "-1"]
+          "1: 1, 2", "2: {1, 2}", "x__1", "X__1", "  inner  spaces ".strip(), "First sentence.  Second sentence", "Poll\t2024",
+          "10\u00a0000 voters", "a  b\t\tc", "thin\u2009space", "wide\u3000gap", "x \t y", "tab\there", "0", "007", "-1"]
 
 
 def rand_text(rng, maxlen=12, p_empty=0.15):
@@ -205,13 +232,51 @@ def rand_instance(rng):
     names = [(a, rand_text(rng, 10, 0.2)) for a in nameids]
     counts = None
     if rng.random() < 0.2:   # the three counts are copied, they need not agree with the ballots
-        counts = (rng.randint(0, 10 ** 6), rng.randint(0, 10 ** 20), rng.randint(0, 50))
-    return simple_instance(om, dt, names=names, fields=fields, counts=counts)
+        # (num_alternatives stays small: a writer that loops over range(num_alternatives) must not cost gigabytes)
+        counts = (rng.randint(0, 40), rng.randint(0, 10 ** 20), rng.randint(0, 50))
+    pl = simple_instance(om, dt, names=names, fields=fields, counts=counts)
+    if rng.random() < 0.35 and len(pl[6]) > 1:     # multiplicity key order decoupled from the orders list
+        mu = list(pl[6])
+        rng.shuffle(mu)
+        pl[6] = mu
+    return pl
+
+
+def rand_pair(rng):
+    """two different instances of the same extension over the same ids, sharing at least one order with a different
+    multiplicity, different names"""
+    m = rng.randint(2, 5)
+    ids = rng.sample(range(1, 20), m)
+    dt = rng.choice(TYPES)
+
+    def one(tag, shared):
+        orders = [shared]
+        for _ in range(rng.randint(0, 3)):
+            o = rand_order(rng, ids)
+            if o not in orders:
+                orders.append(o)
+        rng.shuffle(orders)
+        nameids = list(ids)
+        rng.shuffle(nameids)
+        return simple_instance([(o, rng.choice([1, 2, 3, 7])) for o in orders], dt,
+                               names=[(a, "%s%d" % (tag, a)) for a in nameids],
+                               fields={"title": (tag + " " + rand_text(rng, 6)).strip(), "file_name": tag + "." + dt})
+    shared = rand_order(rng, ids)
+    a = one("A", shared)
+    b = one("B", shared)
+    for it in b[6]:
+        if it[0] == shared:
+            it[1] = 11
+    b[2] = sum(mu for _, mu in b[6])
+    return [a, b]
 
 
 def rand_history(rng):
     """instance + steps: [0, [[order, mult], ...]] set multiplicities (ranking changes); [1, order] append_order_list;
-    [2, ids] append_order (strict); [3] replace the object by parse_file of the last written file"""
+    [2, ids] append_order (strict); [3, e] replace the object by a re-parse of the last written file through entry
+    point e; [4] call the accessors vote_map / full_profile / flatten_strict and poison what they return;
+    [5] recompute_cardinality_param(); [6] decouple the storage orders (reverse the orders list, pop and re-insert the
+    first multiplicity key, rebuild alternatives_name in reverse)"""
     m = rng.randint(2, 5)
     ids = rng.sample(range(1, 12), m)
     orders = []
@@ -227,12 +292,12 @@ def rand_history(rng):
         r = rng.random()
         if r < 0.35:
             steps.append([0, [[o, rng.choice([1, 2, 3, 9])] for o in cur]])
-        elif r < 0.6:
+        elif r < 0.5:
             o = rand_order(rng, ids + [rng.randint(12, 15)])
             steps.append([1, o])
             if o not in cur:
                 cur.append(o)
-        elif r < 0.8:
+        elif r < 0.65:
             a = list(ids)
             rng.shuffle(a)
             a = a[: rng.randint(1, len(a))]
@@ -240,9 +305,15 @@ def rand_history(rng):
             o = [[x] for x in a]
             if o not in cur:
                 cur.append(o)
-        else:
-            steps.append([3])
+        elif r < 0.86:
+            steps.append([3, rng.randrange(4)])
             # parsing lists the ballots in file order; the generator does not need to track that
+        elif r < 0.93:
+            steps.append([4])
+        elif r < 0.96:
+            steps.append([5])
+        else:
+            steps.append([6])
     return [base, steps]
 
 
@@ -290,7 +361,7 @@ def dirty_text(rng):
     if rng.random() < 0.3:
         nameids.append(rng.choice(ids))       # an id named twice
     for a in nameids:
-        sep = rng.choice([": ", ": ", ":", ":  "])
+        sep = rng.choice([": ", ": ", ":", ":  ", ":\t", ": \t", ":\u00a0"])
         lines.append("# ALTERNATIVE NAME %d%s%s" % (a, sep, rng.choice(namepool)))
     if rng.random() < 0.05:
         lines.append("# ALTERNATIVE NAME x: broken")
@@ -323,7 +394,29 @@ def dirty_text(rng):
     return dt, body
 
 
+def _sweep_stale_tmp(max_age_s=900):
+    """workers killed by the watchdog cannot remove their scratch directory; remove old ones here"""
+    import glob
+    import time
+    now = time.time()
+    for d in glob.glob(os.path.join(WORK, "c01_*")):
+        try:
+            if now - os.path.getmtime(d) > max_age_s:
+                shutil.rmtree(d, ignore_errors=True)
+        except OSError:
+            pass
+
+
 def generate(tier, seed):
+    _sweep_stale_tmp()
+    out = _generate(tier, seed)
+    only = os.environ.get("VERIF_C01_OPS")          # debugging aid: comma-separated ops to keep
+    if only:
+        out = [c for c in out if c["op"] in only.split(",")]
+    return out
+
+
+def _generate(tier, seed):
     rng = random.Random(1000003 * seed + 1)
     out = []
     quick = tier == "quick"
@@ -370,8 +463,14 @@ def generate(tier, seed):
     # (1d) histories on one object
     for _ in range(250 if quick else 4000):
         out.append(case("c01.history", rand_history(rng), hist=1))
+    # (1e) two instances of one extension in one process, through every entry point
+    for _ in range(120 if quick else 2500):
+        out.append(case("c01.pair", rand_pair(rng), pair=1))
+    # (1f) ids and multiplicities as numpy.int64
+    for _ in range(60 if quick else 1000):
+        out.append(case("c01.file", rand_instance(rng), np=1))
     # (2) random instances
-    for _ in range(700 if quick else 12000):
+    for _ in range(550 if quick else 12000):
         out.append(case("c01.file", rand_instance(rng), rnd=1))
     # (3) tokenizer
     for _ in range(3000 if quick else 30000):
@@ -421,37 +520,155 @@ def _parse_str(s, dt, **kw):
     return dump_instance(inst)
 
 
+def _parse_via(entry, path, text, dt):
+    """a fresh parse of the file through one of the four entry points; returns the instance object"""
+    from preflibtools.instances import OrdinalInstance
+    if entry == "constructor":
+        return OrdinalInstance(path)
+    if entry == "parse_file":
+        inst = OrdinalInstance()
+        inst.parse_file(path)
+        return inst
+    if entry == "get_parsed_instance":
+        from preflibtools.instances.preflibinstance import get_parsed_instance
+        return get_parsed_instance(path)
+    inst = OrdinalInstance()
+    inst.parse_str(text, dt)
+    return inst
+
+
+def _dump_via(entry, path, text, dt):
+    return dump_instance(_parse_via(entry, path, text, dt))
+
+
+def _poison(x, depth=0):
+    """spoil a returned container in place (a result must not be a view of the instance)"""
+    try:
+        if isinstance(x, list):
+            for y in x:
+                if depth < 2:
+                    _poison(y, depth + 1)
+            x.reverse()
+            x.append(("poison",))
+            del x[:1]
+        elif isinstance(x, dict):
+            for k in list(x):
+                x[k] = -7
+            x[(("poison",),)] = 1
+        elif isinstance(x, set):
+            x.add("poison")
+    except Exception:
+        pass
+
+
+def _accessors_and_poison(inst):
+    """vote_map(), full_profile(), flatten_strict(): call, spoil the result, call again. Returns a reason if the
+    instance (semantic snapshot) changed."""
+    before = snapshot(inst)
+    for name in ("vote_map", "full_profile", "flatten_strict", "vote_map"):
+        fn = getattr(inst, name, None)
+        if fn is None:
+            continue
+        try:
+            res = fn()
+        except Exception:
+            continue
+        _poison(res)
+        d = snap_diff(before, snapshot(inst))
+        if d:
+            return "after %s() and spoiling its result: %s" % (name, d)
+    return None
+
+
+def impl_pair(c):
+    """A written + parsed, B (same extension, same ids, other content) written + parsed, then A's parsed object is
+    looked at again and written again; before that, a malformed file of the same extension is parsed (and rejected).
+    All inside this one call, once per entry point."""
+    pla, plb = c["payload"]
+    dt = U(pla[0][3])
+    out = {}
+    d = _tmpdir()
+    try:
+        base = "w." + dt
+        for entry in ENTRIES:
+            dd = os.path.join(d, entry)
+            for sub in ("a", "b", "x", "a2"):
+                os.makedirs(os.path.join(dd, sub))
+            pa, pb, px, pa2 = (os.path.join(dd, sub, base) for sub in ("a", "b", "x", "a2"))
+            build_instance(pla).write(pa)
+            build_instance(plb).write(pb)
+            ta, tb = _read(pa), _read(pb)
+            _write_raw(px, ta + "3: 1, {2\nnot a ballot\n")
+            first = guarded(_dump_via, entry, px, _read(px), dt)
+            ia = _parse_via(entry, pa, ta, dt)
+            da1 = dump_instance(ia)
+            ib = _parse_via(entry, pb, tb, dt)
+            db = dump_instance(ib)
+            da2 = dump_instance(ia)
+            ia.write(pa2)
+            out[entry] = {"rejected": first[0], "ta": T(ta), "tb": T(tb), "da1": da1, "db": db, "da2": da2,
+                          "ra": T(_read(pa2))}
+        return {"base": base, "entries": out}
+    finally:
+        shutil.rmtree(d, ignore_errors=True)
+
+
 def impl_file(c):
     pl = c["payload"]
     dt = U(pl[0][3])
     d = _tmpdir()
     try:
-        inst = build_instance(pl)
+        inst = build_instance(pl, np_numbers=bool(c.get("tags", {}).get("np")))
         base = "w." + dt
         p1 = os.path.join(d, base)
         inst.write(p1)
+        if os.path.getsize(p1) > 2000000:
+            return {"crash": "write() produced a file of %d bytes for an instance with %d ballots and %d names"
+                             % (os.path.getsize(p1), len(inst.orders), len(inst.alternatives_name))}
         text1 = _read(p1)
         after = dump_instance(inst)
-        parsed_file = guarded(_parse_file, p1)
-        parsed_str = guarded(_parse_str, text1, dt)
-        # (c) write the re-parsed instance again
-        from preflibtools.instances import OrdinalInstance
-        again = OrdinalInstance()
-        again.parse_file(p1)
-        os.makedirs(os.path.join(d, "again"))
-        p2 = os.path.join(d, "again", base)
-        again.write(p2)
-        text2 = _read(p2)
+        # (b) re-parse through every entry point, (c) write each re-parsed instance again
+        parsed, rewrites, twice = {}, {}, {}
+        for entry in ENTRIES:
+            try:
+                again = _parse_via(entry, p1, text1, dt)
+            except Exception as e:  # noqa
+                parsed[entry] = guarded(_dump_via, entry, p1, text1, dt)
+                if parsed[entry][0] == 0:
+                    parsed[entry] = [1, 5, T("not reproducible: " + repr(e)[:80])]
+                continue
+            parsed[entry] = [0, dump_instance(again)]
+            # the same file parsed a second time in this process: a fresh, equal object; the first one untouched
+            try:
+                second = dump_instance(_parse_via(entry, p1, text1, dt))
+            except Exception as e:  # noqa
+                second = "raised " + repr(e)[:120]
+            if second != parsed[entry][1]:
+                twice[entry] = "second parse gives %r, first gave %r" % (second, parsed[entry][1])
+            elif dump_instance(again) != parsed[entry][1]:
+                twice[entry] = "the object returned by the first parse changed when the file was parsed again: %r -> %r" % (
+                    parsed[entry][1], dump_instance(again))
+            os.makedirs(os.path.join(d, "again_" + entry))
+            p2 = os.path.join(d, "again_" + entry, base)
+            again.write(p2)
+            rewrites[entry] = T(_read(p2))
+        # accessors called on the written instance, their results spoiled, then a second write
+        poison_diff = _accessors_and_poison(inst)
+        os.makedirs(os.path.join(d, "second"))
+        p4 = os.path.join(d, "second", base)
+        inst.write(p4)
+        text_second = _read(p4)
         # (d) the model's writer as independent writer
-        mtext = oracle.run([("c01.write", with_default_name(pl, base))])[0]
+        mtext = oracle.run([("c01.write", norm_mult(with_default_name(pl, base)))])[0]
         if isinstance(mtext, dict):
             return {"crash": "oracle error in c01.write: %r" % (mtext,)}
         os.makedirs(os.path.join(d, "model"))
         p3 = os.path.join(d, "model", base)
         _write_raw(p3, U(mtext))
         parsed_model_file = guarded(_parse_file, p3)
-        return {"base": base, "text1": T(text1), "after": after, "parsed_file": parsed_file,
-                "parsed_str": parsed_str, "text2": T(text2), "mtext": mtext, "parsed_model_file": parsed_model_file}
+        return {"base": base, "text1": T(text1), "after": after, "parsed": parsed, "rewrites": rewrites,
+                "poison_diff": poison_diff, "text_second": T(text_second), "twice": twice,
+                "mtext": mtext, "parsed_model_file": parsed_model_file}
     finally:
         shutil.rmtree(d, ignore_errors=True)
 
@@ -467,7 +684,9 @@ def impl_history(c):
         inst.write(path)
         texts.append(T(_read(path)))
         dumps.append(dump_instance(inst))
+        notes = [None]
         for st in steps:
+            note = None
             if st[0] == 0:
                 for o, mu in st[1]:
                     t = tuple(tuple(cl) for cl in o)
@@ -478,13 +697,28 @@ def impl_history(c):
                 inst.append_order_list([tuple(tuple(cl) for cl in st[1])])
             elif st[0] == 2:
                 inst.append_order(tuple(st[1]))
+            elif st[0] == 3:
+                e = ENTRIES[st[1] if len(st) > 1 else 1]
+                inst = _parse_via(e, path, _read(path), str(inst.data_type))
+            elif st[0] == 4:
+                note = _accessors_and_poison(inst)
+            elif st[0] == 5:
+                inst.recompute_cardinality_param()
             else:
-                inst = OrdinalInstance()
-                inst.parse_file(path)
+                inst.orders.reverse()
+                if inst.multiplicity:
+                    k0 = next(iter(inst.multiplicity))
+                    v0 = inst.multiplicity.pop(k0)
+                    inst.multiplicity[k0] = v0
+                items = list(inst.alternatives_name.items())
+                inst.alternatives_name.clear()
+                for a, nm in reversed(items):
+                    inst.alternatives_name[a] = nm
             inst.write(path)
             texts.append(T(_read(path)))
             dumps.append(dump_instance(inst))
-        return {"texts": texts, "dumps": dumps, "base": "h." + U(base_pl[0][3])}
+            notes.append(note)
+        return {"texts": texts, "dumps": dumps, "notes": notes, "base": "h." + U(base_pl[0][3])}
     finally:
         shutil.rmtree(d, ignore_errors=True)
 
@@ -532,6 +766,8 @@ def impl(c):
         return impl_parse_text(c)
     if op == "c01.history":
         return impl_history(c)
+    if op == "c01.pair":
+        return impl_pair(c)
     return {"crash": "unknown op " + op}
 
 
@@ -555,7 +791,7 @@ def oracle_requests(c, r):
         if not isinstance(r, dict) or "text1" not in r:
             return [("c01.roundtrip", pl)]
         base = r["base"]
-        pl2 = with_default_name(pl, base)
+        pl2 = norm_mult(with_default_name(pl, base))
         dt = pl[0][3]
         return [("c01.roundtrip", pl2),
                 ("c01.parse_text", [0, 0, 0, dt, r["text1"], T(base)]),
@@ -570,8 +806,13 @@ def oracle_requests(c, r):
         for t, dmp in zip(r["texts"], r["dumps"]):
             reqs.append(("c01.write", dmp))
             reqs.append(("c01.parse_text", [0, 0, 0, dmp[0][3], t, T(r["base"])]))
-            reqs.append(("c01.roundtrip", dmp))
+            reqs.append(("c01.roundtrip", norm_mult(dmp)))
         return reqs
+    if op == "c01.pair":
+        if not isinstance(r, dict) or "entries" not in r:
+            return [("c01.tokenize", [])]
+        return [("c01.roundtrip", norm_mult(with_default_name(pl[0], r["base"]))),
+                ("c01.roundtrip", norm_mult(with_default_name(pl[1], r["base"])))]
     if op == "c01.parse_text":
         if not isinstance(r, dict) or "text" not in r:
             return [("c01.tokenize", [])]
@@ -604,17 +845,28 @@ def judge_file(c, r, mres):
         if not _non_increasing([m for _, m in mp[1][6]]) or [o for o, _ in mp[1][6]] != mp[1][5]:
             return "(a) ballots in the written file are not listed by non-increasing multiplicity: %r" % (mp[1][6],)
     # (b) parse(write(i)) = i
-    for nm in ("parsed_file", "parsed_str"):
-        p = r[nm]
+    for nm in ENTRIES:
+        p = r["parsed"][nm]
         if p[0] != 0:
             return "(b) %s of the written file raised: %r" % (nm, p[1:])
         if canon_noorder(p[1]) != canon_noorder(sview):
             return "(b) %s: re-parsed instance differs: %r, expected %r" % (nm, p[1], sview)
         if p[1][5] != sview[5]:
             return "(b) %s: orders are not the stable sort by (-multiplicity, -len): %r, expected %r" % (nm, p[1][5], sview[5])
+    for nm in ENTRIES:
+        if r["twice"].get(nm):
+            return "(b) parsing the same file twice through %s: %s" % (nm, r["twice"][nm])
     # (c) byte-identical rewrite
-    if r["text2"] != r["text1"]:
-        return "(c) writing the re-parsed instance does not reproduce the file"
+    for nm in ENTRIES:
+        if r["rewrites"].get(nm) != r["text1"]:
+            return "(c) writing the instance re-parsed through %s does not reproduce the file: %r vs %r" % (
+                nm, U(r["rewrites"].get(nm) or []), U(r["text1"]))
+    # purity: accessors + spoiled results leave the instance and its file alone
+    if r["poison_diff"]:
+        return "the written instance changed " + r["poison_diff"]
+    if r["text_second"] != r["text1"]:
+        return "second write of the same instance (after calling vote_map / full_profile / flatten_strict and spoiling "\
+               "their results) differs from the first: %r vs %r" % (U(r["text_second"]), U(r["text1"]))
     # (d) model writer -> implementation parser
     p = r["parsed_model_file"]
     if p[0] != 0:
@@ -645,6 +897,27 @@ def judge(c, r, mres):
         elif v[0] == 1 and mo != v:
             return "ballot text %r: parser raises %r, model gives %r" % (U(c["payload"]), v[1:], mo)
         return None
+    if op == "c01.pair":
+        if len(mres) != 2:
+            return {"kind": "broken-correspondence", "reason": "pair: implementation side returned %r" % (r,)}
+        (wfa, sva, rta, _), (wfb, svb, rtb, _) = mres
+        if wfa != 1 or wfb != 1:
+            return {"kind": "broken-correspondence", "reason": "generator produced a pair outside wf_ord"}
+        for e in ENTRIES:
+            x = r["entries"][e]
+            if x["rejected"] != 1:
+                return {"kind": "broken-correspondence", "reason": "the malformed warm-up file was accepted via " + e}
+            if canon(x["da1"]) != canon(sva):
+                return "two files of one extension via %s: first instance parsed as %r, expected %r" % (e, x["da1"], sva)
+            if canon(x["db"]) != canon(svb):
+                return "two files of one extension via %s: SECOND instance parsed as %r, expected %r" % (e, x["db"], svb)
+            if x["da2"] != x["da1"]:
+                return "two files of one extension via %s: the object returned for the first file changed when the " \
+                       "second file was parsed: %r -> %r" % (e, x["da1"], x["da2"])
+            if x["ra"] != x["ta"]:
+                return "two files of one extension via %s: re-writing the first parsed object does not reproduce " \
+                       "its file: %r vs %r" % (e, U(x["ra"]), U(x["ta"]))
+        return None
     if op == "c01.history":
         steps = c["payload"][1]
         n = len(r["texts"])
@@ -661,7 +934,13 @@ def judge(c, r, mres):
             if mp[0] != 0 or canon_noorder(mp[1]) != canon_noorder(r["dumps"][k]):
                 return "history, %s: independent reader sees %r, instance is %r" % (what, mp, r["dumps"][k])
             if k > 0 and steps[k - 1][0] == 3 and r["texts"][k] != r["texts"][k - 1]:
-                return "history, parse -> write does not reproduce the file at step %d" % k
+                return "history, parse (%s) -> write does not reproduce the file at step %d" % (
+                    ENTRIES[steps[k - 1][1] if len(steps[k - 1]) > 1 else 1], k)
+            if k > 0 and steps[k - 1][0] == 4:
+                if r["notes"][k]:
+                    return "history, step %d: the instance changed %s" % (k, r["notes"][k])
+                if r["texts"][k] != r["texts"][k - 1]:
+                    return "history, step %d: calling accessors and spoiling their results changed the written file" % k
         return None
     if op == "c01.parse_text":
         m = mres[0]
@@ -697,6 +976,12 @@ def stats(c, r, m):
             lab.append("file sort-key tie")
         if any(not nm for _, nm in pl[3]):
             lab.append("file empty name")
+        if [o for o, _ in pl[6]] != pl[5]:
+            lab.append("file multiplicity keys not in list order")
+        if [a for a, _ in pl[3]] != sorted(a for a, _ in pl[3]):
+            lab.append("file names not in ascending id order")
+        if c["tags"].get("np"):
+            lab.append("file numpy numbers")
         if any(len(o[0]) > 1 for o in pl[5] if o):
             lab.append("file tie first")
         if any(len(o[-1]) > 1 for o in pl[5] if o):
@@ -706,6 +991,8 @@ def stats(c, r, m):
         return lab
     if op == "c01.tokenize":
         return ["tokenize tokens=%s" % (len(m[0]) if len(m[0]) <= 3 else ">3")]
+    if op == "c01.pair":
+        return ["pair (two instances, one extension, 4 entry points)"]
     if op == "c01.history":
         return ["history steps=%d" % len(c["payload"][1])] + ["history step kind %d" % st[0] for st in c["payload"][1]]
     if op == "c01.parse_text":
@@ -723,9 +1010,14 @@ def describe(c):
                 "orders": pl[5], "multiplicity": pl[6]}
     if op == "c01.tokenize":
         return {"op": op, "ballot_text": U(pl)}
+    if op == "c01.pair":
+        return {"op": op, "A": describe({"op": "c01.file", "payload": pl[0]}),
+                "B": describe({"op": "c01.file", "payload": pl[1]}), "entry_points": ENTRIES}
     if op == "c01.history":
         return {"op": op, "start": describe({"op": "c01.file", "payload": pl[0]}),
-                "steps": [{0: "set multiplicities", 1: "append_order_list", 2: "append_order", 3: "parse_file(last file)"}[st[0]]
+                "steps": [{0: "set multiplicities", 1: "append_order_list", 2: "append_order",
+                           3: "re-parse last file via entry", 4: "accessors + spoil results",
+                           5: "recompute_cardinality_param", 6: "decouple storage orders"}[st[0]]
                           + (" " + repr(st[1]) if len(st) > 1 else "") for st in pl[1]]}
     if op == "c01.parse_text":
         d = {"op": op, "autocorrect": pl[0], "header_only": pl[1], "entry": ["parse_file", "parse_str"][pl[2]],
